@@ -15,23 +15,28 @@ import (
 // Put poisons the spare capacity of byte buffers: bytes beyond len are
 // unobservable to a correct client, and a result that still aliases a pooled
 // buffer becomes visibly corrupt.
+//
+// All state is touched from //go:norace functions without builtin copy/append
+// (which the runtime instruments on its own): the only happens-before edge the
+// race detector sees is the per-object Put -> Get edge sync.Pool also gives.
 type Pool struct {
 	New   func() interface{}
 	items [poolCap]poolItem
 	n     int
+	reg   bool
 }
 
 const poolCap = 32
 
 type poolItem struct {
 	v  interface{}
-	hb *sync.Mutex // reproduces sync.Pool's Put->Get happens-before edge for the race detector, per object
+	hb *sync.Mutex
 }
 
 // PoolTape is the tape pool decisions are drawn from (nil: LIFO, never miss).
 var PoolTape *Tape
 
-// PoolStats are global counters (reset by the harness per run).
+// PoolStats are global counters (reset by ResetPools).
 var PoolStats struct {
 	Gets, Hits, Miss, Steal, Poison, Drops int
 }
@@ -42,9 +47,35 @@ var PoolPoison = true
 // PoolMissPct is the probability (percent) of a forced miss on a non-empty pool.
 var PoolMissPct = 15
 
+var allPools [128]*Pool
+var nPools int
+
+//go:norace
+func (p *Pool) register() {
+	if !p.reg {
+		p.reg = true
+		if nPools < len(allPools) {
+			allPools[nPools] = p
+			nPools++
+		}
+	}
+}
+
+// ResetPools empties every pool that has been used (simulated GC between
+// runs: a run's pool state then depends on that run's own history only).
+//
+//go:norace
+func ResetPools() {
+	for i := 0; i < nPools; i++ {
+		allPools[i].Drain()
+	}
+	PoolStats.Gets, PoolStats.Hits, PoolStats.Miss, PoolStats.Steal, PoolStats.Poison, PoolStats.Drops = 0, 0, 0, 0, 0, 0
+}
+
 //go:norace
 func (p *Pool) Get() interface{} {
 	Yield(-7)
+	p.register()
 	PoolStats.Gets++
 	t := PoolTape
 	if p.n > 0 {
@@ -62,7 +93,9 @@ func (p *Pool) Get() interface{} {
 		}
 		if !miss {
 			it := p.items[idx]
-			copy(p.items[idx:p.n], p.items[idx+1:p.n])
+			for k := idx; k+1 < p.n; k++ {
+				p.items[k] = p.items[k+1]
+			}
 			p.n--
 			p.items[p.n] = poolItem{}
 			PoolStats.Hits++
@@ -80,6 +113,7 @@ func (p *Pool) Get() interface{} {
 //go:norace
 func (p *Pool) Put(x interface{}) {
 	Yield(-8)
+	p.register()
 	if x == nil {
 		return
 	}
@@ -88,7 +122,9 @@ func (p *Pool) Put(x interface{}) {
 	}
 	if p.n == poolCap {
 		// drop the oldest (what a GC does to the victim cache)
-		copy(p.items[0:], p.items[1:p.n])
+		for k := 0; k+1 < p.n; k++ {
+			p.items[k] = p.items[k+1]
+		}
 		p.n--
 		PoolStats.Drops++
 	}
@@ -120,12 +156,8 @@ func poison(x interface{}) {
 		}
 	case *bytes.Buffer:
 		if b != nil {
-			n := b.Len()
-			c := b.Cap()
-			if c > n {
-				s := b.Bytes()
-				fill(s[n:cap(s)])
-			}
+			s := b.Bytes()
+			fill(s[len(s):cap(s)])
 		}
 	}
 }
